@@ -85,6 +85,8 @@ pub mod miette;
 #[cfg(feature = "figment")]
 pub mod figment;
 pub(crate) mod ring_reader;
+#[cfg(serde_saphyr_verif)]
+pub mod verif;
 mod wrapping;
 mod zmij_format;
 // ---------------- Serialization (public API) ----------------
